@@ -328,6 +328,22 @@ def run(ctx):
     else:
         ctx.unsure("R13.4", "interpolate_dataset_grid[per-axis call]", "per-axis call not found", fgd.loc())
 
+    # successive axes: the result of one pass is the input of the next (two symbolic coordinates, the per-axis function opaque)
+    itg = Interp(p)
+    seen_passes = []
+
+    def hook_axis(_it, f_, a_, k_, e_, n_):
+        b_ = _it.bind(f_, a_, k_, Env(_it, f_, f_.module))
+        r_ = op("along_axis", T.to_term(b_.get("data_set")), T.to_term(b_.get("coordinate_name")), T.to_term(b_.get("coordinate_value")))
+        seen_passes.append(r_)
+        return r_
+    itg.hooks[DSM + "interpolate_dataset_along_axis"] = hook_axis
+    DS0 = P("data_set")
+    rg = itg.call_function(fgd, [{"c1": P("v1"), "c2": P("v2")}, DS0, {}], {}, None)
+    want_g = op("along_axis", op("along_axis", DS0, Str("c1"), P("v1")), Str("c2"), P("v2"))
+    ctx.equiv("R13.4", "interpolate_dataset_grid[axes are chained]", rg, want_g, fgd.loc(),
+              "the dataset handed to the pass over the second coordinate is the result of the pass over the first", interp=itg)
+    ctx.absorb(itg)
     GRIDI = DSM + "interpolate_dataset_grid"
     AXIS = DSM + "interpolate_dataset_along_axis"
     for cls in (CLS_1D, CLS_2D):
@@ -421,7 +437,7 @@ def run(ctx):
     ctx.require_count("R13.1", 3)
     ctx.require_count("R13.2", 14)
     ctx.require_count("R13.3", 7)
-    ctx.require_count("R13.4", 5)
+    ctx.require_count("R13.4", 6)
     ctx.require_count("R13.5", 14)
     ctx.require_count("R13.6", 10)
 
